@@ -515,14 +515,20 @@ fn storage_fragment(a: &mut Asm, r: &mut Rng, s: U256, slots: &[U256]) {
             // a field extracted by dividing by a shifted power of two:
             // (x / (2^n << s)) & mask, the shift now and then absurd
             a.push(s).op(op::SLOAD);
-            let n = r.below(4) as u32;
-            a.push(U256::ONE << n);
             if r.chance(1, 4) {
-                a.push(boundary_constant(r));
+                // a literal divisor that is not a shifted power of two at all
+                a.push(*r.pick(&[U256::ZERO, U256::ONE, U256::from(3u32), U256::from(10u32), U256::from(40u32), U256::MAX]));
             } else {
-                a.push_u(8 * r.below(24) as u128);
+                let n = r.below(4) as u32;
+                a.push(U256::ONE << n);
+                if r.chance(1, 4) {
+                    a.push(boundary_constant(r));
+                } else {
+                    a.push_u(8 * r.below(24) as u128);
+                }
+                a.op(op::SHL);
             }
-            a.op(op::SHL).swap(1).op(op::DIV);
+            a.swap(1).op(op::DIV);
             a.push(mask(*r.pick(&[8u32, 32, 64, 160]))).op(op::AND);
             a.push(other).op(op::SSTORE);
         }
@@ -530,14 +536,17 @@ fn storage_fragment(a: &mut Asm, r: &mut Rng, s: U256, slots: &[U256]) {
             // the short-string slot layout (flag bit, 7 length bits, 248 data
             // bits) written in one store, its parts also kept elsewhere, the
             // slot also used as the base of its long form
+            // (the masked fields themselves are what is kept elsewhere, so
+            // they are values shared between several top-level values)
             typed_value(a, r);
-            a.dup(1).push(*r.pick(slots)).op(op::SSTORE);
             a.push_u(1).op(op::AND);
+            a.dup(1).push(*r.pick(slots)).op(op::SSTORE);
             typed_value(a, r);
+            a.push_u(0x7f).op(op::AND);
             a.dup(1).push(*r.pick(slots)).op(op::SSTORE);
             // (fields are moved into place by multiplication: that is the
             // form the library lifts into a packed encoding)
-            a.push_u(0x7f).op(op::AND).push_u(2).op(op::MUL).op(op::OR);
+            a.push_u(2).op(op::MUL).op(op::OR);
             if r.chance(1, 2) {
                 typed_value(a, r);
                 a.push(mask(248)).op(op::AND).push_u(256).op(op::MUL).op(op::OR);
